@@ -21,6 +21,11 @@ pool members.  Operations (an inapplicable one is skipped):
   ["filter_tags"|"filter_tags_copy", i, tags]
   ["read", lines, filter, form]                  a new database read from text
   ["reread", i, lines, filter, form]             read() into a database that already holds a collection
+  ["failread", i | null, lines, filter, form, k, "input" | "filter"]
+                                                 a read() that FAILS midway - its input raises at line k or its
+                                                 tag_filter raises on call k+1 (see Interp.feed) - into member i
+                                                 or (null) into a new DB() that joins the pool; ``lines`` may be
+                                                 {"big": ...} as for init; the history then goes on using it
   ["mquery", i, names]                           packages_of_tags / tags_of_packages / ideal_tagset, each with
                                                  every rotation of the non-empty name list (see do_mquery)
   ["qio", i, [j, k], "fresh"|"reuse"|"into"]     qwrite() of members i, j, k one after another into one
@@ -46,7 +51,17 @@ The same holds for the single-name queries, which are asked with every name the 
 with names it does not have, and for a choose_packages_copy() that fails with KeyError because
 it was given a name the collection does not have.
 
-Known finding "insert-chars" (known_findings.json): dual model, see check_step().
+A read() that raises has not happened: the database it was called on, its sharing views and every
+other database show exactly what they showed before (both indexes still inverse, every query
+method), and later operations on it are checked as usual (do_reread).
+
+facet_collection(): the facet of a tag is defined for the documented shape facet::name only (text
+before the '::', which is its first colon).  A collection in which some tag has another shape (f:x,
+f:sub::y, special, :x - nothing says what their facet is) is still derived from, and of the result
+only this is demanded: same packages, the facets of the well-formed tags present, at most one name
+per other tag, and the reverse index exactly inverse to the forward one (Interp.loose_facets).
+
+Known finding "insert-chars" (known_findings.json): dual model, see Interp.settle().
 """
 import io
 import os
@@ -76,13 +91,21 @@ RULE = ("cases are histories [init lines, tag filter, op list] over a pool of da
         "target index 0..position on one fixed 5-package collection; enumerated long texts: 72 read()s of "
         "3000/70000/140000 characters with the line ends aligned on every multiple of 512/4096/65536 "
         "characters (offset -1, 0, +1) from an iterator, a list, an io.StringIO and a real file, last line "
-        "with and without newline; generated: 0..8 initial packages "
+        "with and without newline, and 24 long read()s that fail close to their end followed by normal use; "
+        "enumerated failed reads: 7424 histories [none|reverse|copy|insert] + a read() whose input or tag_filter "
+        "raises (iterator / real file with an undecodable byte; at once / after two lines or tags; into an existing "
+        "database / a new one) + every op of the alphabet x 3 targets, both spellings; enumerated odd tags: every "
+        "op sequence of length 1..2 (21 ops, both spellings) on a collection with tags that are not facet::name "
+        "(f:x, f:sub::y, special, g, :lead) and one with a colon after the '::' (w::i:r); "
+        "generated: 0..8 initial packages "
         "in single- and multi-package lines (distinct names of 1..6 characters; one-character names in "
         "about half of the positions and exclusively in a quarter of the histories), 14 facet::tag "
-        "names sharing 6 facets, optional tag_filter, 1..12 operations (thorough: 1..20) = inserts, "
+        "names sharing 6 facets (+ w::i:r and, in about a tenth of the lines and inserts, the odd tags), "
+        "optional tag_filter, 1..12 operations (thorough: 1..20) = inserts, "
         "all 12 derivations (choose_packages_copy also with names the collection lacks), every read() "
         "in one of the four input forms, a third of the steps through the deprecated aliases, "
-        "further read()s into the pool and into existing members, multi-name "
+        "further read()s into the pool and into existing members, read()s that fail midway (input or tag_filter "
+        "raises at position 0..7; into a member or a new DB) with the history going on afterwards, multi-name "
         "queries (1..4 names, existing and absent, as drawn and rotated), qwrite/qread of 1..3 "
         "members through one in-memory file into fresh DBs / one reused DB / an existing member; "
         "thorough adds a RuleBasedStateMachine "
@@ -92,7 +115,15 @@ RULE = ("cases are histories [init lines, tag filter, op list] over a pool of da
 ASSUMPTIONS = [
     "reference relation vcheck/model/c20_relation.py (dict-of-sets semantics written from the docstrings)",
     "filter predicates are given as explicit sets; filter_packages_tags keeps (p, ts) with p in pkgs or ts & tags",
-    "facet of a tag = text before its first ':'; facet_collection is exercised only when every tag has one",
+    "facet of a tag of the documented shape facet::name = the text before the '::' (= before its first colon); "
+    "for any other tag text (f:x, f:sub::y, special, :x) the documentation defines no facet: facet_collection "
+    "on a collection holding one is checked for same packages, facets of the well-formed tags, at most one "
+    "name per other tag, reverse index = inverse of the forward index (or M' of it); skipped downstream of "
+    "the known finding",
+    "a read() that raises (input iterator raising InputFailure, UnicodeDecodeError from a real file with a "
+    "0xFF byte, tag_filter raising InputFailure) counts as not having happened: the reference keeps the "
+    "pairs from before - DB.read binds both indexes in one assignment after the input is consumed - and "
+    "sharing views stay live; only these two exception types are caught, and only in a failread step",
     "M' (known finding insert-chars) replays facet_collection in the order iter_packages() yields",
     "packages_of_tags/tags_of_packages: only 'between intersection and union of the single-name answers' "
     "is demanded of the value (docstring says all, code unites); ideal_tagset: the set of a non-empty prefix "
@@ -114,11 +145,14 @@ EXHAUSTIVE = {
              "round trip) x target index 0..position on the fixed collection x spelling (all steps snake_case / "
              "all steps through the deprecated aliases); 72 read()s of long texts: (3000 chars, block 512) / "
              "(70000, 4096) / (140000, 65536) with a newline on every multiple of the block x offset -1/0/+1 x "
-             "4 input forms x last line with/without newline",
+             "4 input forms x last line with/without newline; 24 long failing read()s; 7424 failed-read "
+             "histories (prefix x failure kind x position x target x follow-up op x spelling, see FAIL_DESC); "
+             "1806 op sequences of length 1..2 on the odd-tag collection (ODD_DESC)",
     "thorough": "all op sequences of length 1..3 over the 19-op alphabet x both spellings and of length 1..4 over "
                 "its first 17 ops "
                 "(snake_case; no multi-name queries / pickle round trip) x target index 0..position on the fixed "
-                "collection; the 72 long-text read()s of the quick tier",
+                "collection; the 72 long-text read()s of the quick tier; the failed-read and odd-tag "
+                "enumerations of the quick tier",
 }
 BUDGET = {"quick": 200, "thorough": 1500}
 
@@ -149,8 +183,17 @@ FORMS = ("iter", "list", "stringio", "file")     # how read() is handed its text
 NAME_OK = re.compile(r"[^\s,:]+\Z")      # what a line of the text format can carry as a package
 TAG_OK = re.compile(r"[^\s,]+\Z")
 ABSENT = ["zz-absent", "a", "f::a"]
+HOWS = ("input", "filter")               # what makes a read() fail: its input / its tag_filter raises
 TAGS = ["f::a", "f::b", "f::c", "g::a", "g::b", "h::x::y", "h::x::z", "role::p", "role::q", "u::a"]
 HOT = TAGS[:4]
+# tag texts that are not of the documented shape facet::name (no '::' at all, a lone colon before
+# it, a leading colon): legal in the text format and for insert(); what facet_collection() makes of
+# them is not documented (model/c20_relation.facetable), everything else is demanded as for any tag
+ODD_TAGS = ["f:x", "f:sub::y", "special", "g", ":lead"]
+
+
+class InputFailure(Exception):
+    """Raised by the harness's own line iterator / tag_filter to make a read() fail midway."""
 
 
 def _scratch_parent():
@@ -202,6 +245,11 @@ def clean_lines(entries, labels):
         style = ent[2] if len(ent) > 2 and isinstance(ent[2], int) else 0
         out.append((pkgs, tags, style))
     return out
+
+
+def entries_of(x):
+    """The [[packages, tags, style]] list of a read: given as it is, or as {"big": spec}."""
+    return big_entries(x.get("big")) if isinstance(x, dict) else x
 
 
 # ------------------------------------------------------------------------------------------
@@ -294,6 +342,7 @@ class Entry(object):
         self.cls = self
         self.live = True
         self.alias = False   # derived through the deprecated alias of ``origin``
+        self.failed_read = False   # a read() into it has failed at some point
 
     def find(self):
         e = self
@@ -333,7 +382,10 @@ class Interp(object):
 
     def target(self, i):
         lv = self.live()
-        return lv[(i if isinstance(i, int) and not isinstance(i, bool) else 0) % len(lv)]
+        e = lv[(i if isinstance(i, int) and not isinstance(i, bool) else 0) % len(lv)]
+        if e.failed_read:
+            self.labels.add("op-on-db-after-failed-read")
+        return e
 
     def add(self, db, origin, parent, share):
         e = Entry(len(self.pool), db, origin, parent)
@@ -422,9 +474,17 @@ class Interp(object):
 
     # -- operations -------------------------------------------------------------------------
 
-    def feed(self, db, lines, allowed, form, final_newline=True):
+    def feed(self, db, lines, allowed, form, final_newline=True, fail=None):
         """db.read() of the text of ``lines``, handed over as ``form`` says: an iterator over the
-        lines, a list of lines, an io.StringIO, or a real text file opened for reading."""
+        lines, a list of lines, an io.StringIO, or a real text file opened for reading.
+
+        ``fail`` = (how, k) makes the read fail midway (the exception is the caller's to catch):
+        "filter": the tag_filter answers as ``allowed`` says k' = k mod (number of tags in the text)
+        times and raises InputFailure on the next call; "input": in the "file" form the byte 0xFF,
+        which is not UTF-8, stands in front of line k' = k mod (lines + 1) (UnicodeDecodeError when
+        the reader gets there; lines of earlier buffers have been handed out by then), in every
+        other form an iterator hands out the first k' lines and then raises InputFailure.  When
+        there is nothing to fail on (a text without tags for "filter") the read simply succeeds."""
         text = [line_of(p, t, s) for p, t, s in lines]
         if not final_newline and text and text[-1] != "\n":
             text[-1] = text[-1][:-1]
@@ -432,6 +492,40 @@ class Interp(object):
         args = () if allowed is None else (lambda t: t in allowed,)
         form = form if form in FORMS else "iter"
         size = sum(map(len, text))
+        how, k = fail if fail else (None, 0)
+        if how == "filter":
+            ntags = sum(len(set(t)) for p, t, _ in lines if p)
+            left = [k % ntags if ntags else 0]
+
+            def failing_filter(t):
+                if left[0] <= 0:
+                    raise InputFailure("tag_filter(%r) raises" % (t,))
+                left[0] -= 1
+                return allowed is None or t in allowed
+            args = (failing_filter,)
+        elif how == "input":
+            k %= len(text) + 1
+            if k:
+                self.labels.add("failed-read:lines-before-the-failure")
+            if form == "file":
+                d = tempfile.mkdtemp(prefix="vcheck-c20-", dir=SCRATCH)
+                try:
+                    path = os.path.join(d, "package-tags")
+                    with open(path, "wb") as f:
+                        f.write("".join(text[:k]).encode("utf-8") + b"\xff"
+                                + "".join(text[k:]).encode("utf-8"))
+                    with open(path, "r", encoding="utf-8") as f:
+                        db.read(f, *args)
+                finally:
+                    shutil.rmtree(d, ignore_errors=True)
+                return
+
+            def failing_input():
+                for line in text[:k]:
+                    yield line
+                raise InputFailure("the input raises after %d lines" % k)
+            db.read(failing_input(), *args)
+            return
         if form == "list":
             db.read(list(text), *args)
         elif form == "stringio":
@@ -469,14 +563,27 @@ class Interp(object):
                     old=old)
         return e
 
-    def do_reread(self, e, entries, flt, form="iter", old=False):
+    def do_reread(self, e, entries, flt, form="iter", old=False, fail=None):
         """read() into a database that already holds a collection: "Read the database from a file"
         - afterwards it holds what the text says (that is also what the code does: both indexes are
         rebound).  Views that shared sets with the old content are retired; whatever is derived
-        from the database from now on must reflect the new content."""
-        lines = clean_lines(entries, self.labels)
+        from the database from now on must reflect the new content.
+
+        With ``fail`` (see feed) the read raises midway.  A read that failed has not happened: the
+        reference keeps the pairs it had (DB.read installs both indexes with one assignment after
+        the whole input has been consumed), so the database - and every other one, its sharing
+        views included - must show exactly what it showed before, through every query method, and
+        stays in the pool for whatever the history does next."""
+        lines = clean_lines(entries_of(entries), self.labels)
         allowed = None if flt is None else set(strs(flt))
-        self.feed(e.db, lines, allowed, form)
+        try:
+            self.feed(e.db, lines, allowed, form, fail=fail)
+        except (InputFailure, UnicodeDecodeError) as exc:
+            if fail is None or not isinstance(exc, UnicodeDecodeError if (
+                    fail[0] == "input" and form == "file") else InputFailure):
+                raise
+            self.after_failed_read(e, "%s/%s" % (fail[0], form if form in FORMS else "iter"), old)
+            return e
         for o in self.live():
             if o is not e and o.find() is e.find():
                 o.live = False
@@ -485,6 +592,23 @@ class Interp(object):
                     old=old)
         self.labels.add("op:read-into-existing-db")
         return e
+
+    def after_failed_read(self, e, what, old=False):
+        for o in self.live():
+            obs = observe(o.db, o.name())
+            if obs != o.S:
+                broken = o.S.is_relation() and not obs.is_relation()
+                raise Violation("failed-read-leaves-indexes-not-inverse" if broken else
+                                "failed-read-changes-collection",
+                                "read() into %s failed (%s) and left %s as: %s" % (
+                                    e.name(), what, "it" if o is e else o.name(), rel.diff(obs, o.S)))
+        check_queries(e.db, e.S, e.name(), old)
+        e.failed_read = True
+        self.labels.add("failed-read:" + what)
+        self.labels.add("failed-read-into:%s" % (
+            "new-db" if e.origin == "read" and not e.S.fwd and not e.S.rev else
+            "db-with-sharing-views" if any(o is not e and o.find() is e.find() for o in self.live())
+            else "existing-db"))
 
     def verify_all(self, actor, opname, sig):
         """A query / a write-out changes nothing: every live database still shows its state."""
@@ -658,12 +782,18 @@ class Interp(object):
             tags = set(S.rev) | set(T.rev)
             for ts in S.fwd.values():
                 tags |= ts
-            if not all(rel.facetable(t) for t in tags):
-                self.labels.add("note:facet-skipped-tag-without-facet")
+            strict = all(rel.facetable(t) for t in tags)
+            if not strict and S != T:
+                self.labels.add("note:facet-skipped-tag-without-facet-downstream-of-known-finding")
                 return None
             order = list(e.db.iter_packages())
             nd = call("facet_collection")()
-            spec, dev, truth = rel.facet(S), rel.facet(S, order, deviant=True), rel.facet(T)
+            if strict:
+                spec, dev, truth = rel.facet(S), rel.facet(S, order, deviant=True), rel.facet(T)
+            else:
+                fw = self.loose_facets(nd, S, ALIAS["facet_collection"] if old else "facet_collection")
+                spec, dev, truth = rel.rebuild(fw), rel.rebuild(fw, order, deviant=True), rel.rebuild(fw)
+                self.labels.add("facet:tag-without-documented-facet")
             if len({rel.facet_of(t) for t in tags}) < len(tags):
                 self.labels.add("facet-merges-tags")
         elif op in ("choose", "choose_copy", "filter_packages", "filter_packages_copy"):
@@ -718,6 +848,27 @@ class Interp(object):
         self.verify_others(n, origin)
         return n
 
+    def loose_facets(self, nd, S, origin):
+        """facet_collection() of a collection in which some tag is not of the shape facet::name.
+        What the facet of such a tag is, nothing documents - so only this is demanded of the
+        forward index of the result: the same packages; every package has the facets of those of
+        its tags that do have one and at most one further name per tag that does not.  Returns that
+        forward index; the caller then demands that the reverse index is exactly its inverse
+        (the result is the collection built by inserting these packages with these sets)."""
+        if not isinstance(nd, DB):
+            raise Violation(origin + "-result", "%s returned %s" % (origin, short(nd, 80)))
+        obs = observe(nd, origin + "()")
+        if set(obs.fwd) != set(S.fwd):
+            raise Violation(origin + "-result", "%s: packages %s, the source has %s" % (
+                origin, short(sorted(obs.fwd), 100), short(sorted(S.fwd), 100)))
+        for p in sorted(S.fwd):
+            sure = {rel.facet_of(t) for t in S.fwd[p] if rel.facetable(t)}
+            free = len([t for t in S.fwd[p] if not rel.facetable(t)])
+            if not sure <= obs.fwd[p] or len(obs.fwd[p] - sure) > free:
+                raise Violation(origin + "-result", "%s: package %r with tags %s got %s" % (
+                    origin, p, sorted(S.fwd[p]), sorted(obs.fwd[p])))
+        return obs.fwd
+
     def choose_copy(self, e, sel, choose_packages_copy):
         """choose_packages_copy has no "if pkg in self.db": when some of the names are not
         packages of the collection the call either fails with KeyError - then nothing was derived
@@ -759,6 +910,20 @@ class Interp(object):
             e = self.do_reread(self.target(arg(1)), arg(2), arg(3), arg(4), old)
             self.verify_others(e, "reread")
             return e
+        if name == "failread":
+            how = arg(6) if arg(6) in HOWS else "input"
+            k = arg(5) if isinstance(arg(5), int) and not isinstance(arg(5), bool) else 0
+            if arg(1) is None:                       # into a new DB(), which joins the pool - empty
+                if len(self.pool) >= 24:
+                    return None
+                e = self.add(DB(), "read", None, False)
+                e.S, e.T = rel.State(), rel.State()
+                self.do_reread(e, arg(2), arg(3), arg(4), old, (how, k))
+                self.verify_others(e, "read")
+                return e
+            e = self.do_reread(self.target(arg(1)), arg(2), arg(3), arg(4), old, (how, k))
+            self.verify_others(e, "reread")
+            return None
         if name == "insert":
             return self.do_insert(self.target(arg(1)), arg(2), arg(3), old) or None
         if name == "mquery":
@@ -863,13 +1028,13 @@ ENUM_OPS_IO = ENUM_OPS + [
 ]
 
 
-def enum_cases(maxlen, alphabet, spellings=("",)):
+def enum_cases(maxlen, alphabet, spellings=("",), init=ENUM_INIT):
     """Every op sequence of length 1..maxlen x target indices, once per spelling: "" = the
     snake_case methods, OLD = every step of the history through the deprecated aliases."""
     def gen():
         def rec(prefix, pos, mark):
             if prefix:
-                yield {"kind": "history", "init": ENUM_INIT, "filter": None, "ops": list(prefix)}
+                yield {"kind": "history", "init": init, "filter": None, "ops": list(prefix)}
             if pos == maxlen:
                 return
             for o in alphabet:
@@ -884,6 +1049,39 @@ def enum_cases(maxlen, alphabet, spellings=("",)):
     return gen
 
 
+# tags that are not facet::name (and one with a colon after the '::'): every op sequence of length 1..2
+ODD_INIT = [[["p"], ["f:x", "g::b"], 0], [["q"], ["f::a", "f:sub::y"], 0], [["rr"], ["special"], 0],
+            [["s", "t"], ["g", "w::i:r"], 0], [["u"], [], 0], [["v"], [":lead", "f::a"], 0]]
+ODD_OPS = ENUM_OPS_IO + [["insert", "m", ["f:x", "special", "w::i:r"]], ["insert", "mm", ["f:sub::z"]]]
+ODD_DESC = ("all op sequences of length 1..2 over the 19-op alphabet + 2 inserts with such tags x target "
+            "index 0..position x both spellings on a fixed 7-package collection whose tags include f:x, f:sub::y, "
+            "special, g, :lead (no documented facet) and w::i:r")
+
+# a read() that fails midway, then normal use: [nothing | a sharing view | a copy | an insert that hits
+# the known finding] x failing read x one further op with every target
+FAIL_LINES = [[["p"], ["h::c"], 0], [["u", "v"], ["f::a", "g::b"], 0], [["w"], [], 0]]
+FAIL_PRE = [[], [["reverse", 0]], [["copy", 0]], [["insert", 0, "nn", ["g::b", "k::a"]]]]
+FAIL_DESC = ("histories [none | reverse | copy | insert] + a read() that fails (into member 0 / into a new DB) "
+             "because its input raises after 0 / 2 lines (iterator; real file with a byte that is not UTF-8) or its "
+             "tag_filter raises on its 1st / 3rd call (iterator, real file) + one op of the 19-op alphabet "
+             "with target index 0..2, snake_case and deprecated aliases")
+
+
+def fail_cases():
+    for mark in ("", OLD):
+        for pre in FAIL_PRE:
+            for tgt in (0, None):
+                for how, form in (("input", "iter"), ("input", "file"), ("filter", "iter"), ("filter", "file")):
+                    for k in (0, 2):
+                        head = [[mark + o[0]] + o[1:] for o in pre] + [
+                            [mark + "failread", tgt, FAIL_LINES, None, form, k, how]]
+                        yield {"kind": "history", "init": ENUM_INIT, "filter": None, "ops": head}
+                        for o in ENUM_OPS_IO:
+                            for i in range(3):
+                                yield {"kind": "history", "init": ENUM_INIT, "filter": None,
+                                       "ops": head + [[mark + o[0], i] + o[1:]]}
+
+
 # read() of long texts: (characters, block size) x offset of the aligned newlines x input form x
 # last line with/without newline; each followed by a copy-derivation and an insert
 BIG_SHAPES = [(3000, 512), (70000, 4096), (140000, 65536)]
@@ -892,10 +1090,25 @@ BIG_TAIL = [["filter_tags_copy", 0, HOT], ["insert", 1, "n", ["f::a"]]]
 
 LONG_DESC = ("read() of generated texts of 3000 / 70000 / 140000 characters in which the newline of a line is "
              "character k*B+d for every k (B = 512 / 4096 / 65536) x d in -1, 0, +1 x input form (iterator of "
-             "lines, list, io.StringIO, real text file) x last line with / without newline, each followed by filter_tags_copy and an insert into the copy")
+             "lines, list, io.StringIO, real text file) x last line with / without newline, each followed by filter_tags_copy and an insert into the copy; "
+             "24 read()s of the same three sizes (d = 0) that fail in front of their last line (input raises: iterator / "
+             "undecodable byte in a real file) or on the last tag but one (tag_filter raises), into a database that holds a "
+             "collection / a new one, followed by insert, copy, insert, a good read()")
+
+
+BIG_FAIL_TAIL = [["insert", 0, "n", ["f::a"]], ["copy", 0], ["insert", 0, "nn", ["g::b"]],
+                 ["reread", 0, FAIL_LINES, None, "iter"]]
 
 
 def big_cases():
+    # a long read() that fails close to its end (in front of the last line / on the last tag but one), then normal use
+    for chars, block in BIG_SHAPES:
+        for how in HOWS:
+            for form in ("iter", "file"):
+                for tgt in (0, None):
+                    yield {"kind": "history", "init": ENUM_INIT, "filter": None,
+                           "ops": [["failread", tgt, {"big": {"chars": chars, "block": block, "off": 0}},
+                                    None, form, -2, how]] + [list(o) for o in BIG_FAIL_TAIL]}
     for chars, block in BIG_SHAPES:
         for off in (-1, 0, 1):
             for form in FORMS:
@@ -915,7 +1128,7 @@ def big_cases():
 
 ONE = list("abcdepqxyz019é")
 MULTI = "abpx1-é"
-EXTRA_TAGS = ["f::n", "g::n", "k::a", "role::n::m"]
+EXTRA_TAGS = ["f::n", "g::n", "k::a", "role::n::m", "w::i:r"]
 name1 = st.sampled_from(ONE)
 nameN = st.text(alphabet=st.sampled_from(MULTI), min_size=2, max_size=6)
 NAMES = {"single": st.lists(name1, unique=True, min_size=3, max_size=14),
@@ -931,7 +1144,8 @@ def subset(pool, max_size, min_size=0):
 
 
 line_tags = st.one_of(st.just([]), subset(HOT, 3, 1), subset(HOT, 3, 1), subset(HOT, 2, 1),
-                      subset(TAGS, 4), subset(TAGS, 4, 1))
+                      subset(TAGS, 4), subset(TAGS, 4, 1), subset(TAGS, 4, 1),
+                      subset(TAGS[:6] + ODD_TAGS + ["w::i:r"], 3, 1))
 tag_filter = st.one_of(st.none(), st.none(), st.none(), subset(TAGS, 7), subset(HOT, 3, 1))
 init_lines = st.lists(st.tuples(st.sampled_from([1, 1, 1, 1, 2, 3]), line_tags, st.integers(0, 3)),
                       max_size=8)
@@ -940,6 +1154,7 @@ read_lines = st.lists(st.tuples(st.lists(ANY, min_size=1, max_size=3), line_tags
 ins_pkg = st.one_of(FRESH, FRESH, FRESH, FRESH, name1, nameN, st.sampled_from(EXTRA_TAGS + TAGS[:3]))
 ins_tags = st.one_of(subset(HOT, 2, 1), subset(HOT, 2, 1), subset(HOT, 3, 1),
                      subset(TAGS + EXTRA_TAGS, 3), subset(TAGS + EXTRA_TAGS, 3, 1),
+                     subset(HOT + ODD_TAGS, 2, 1),
                      st.lists(st.one_of(ANY, ANY, st.sampled_from(HOT)), min_size=1, max_size=2),
                      st.just([]))
 psel = st.one_of(st.lists(ANY, max_size=8), st.lists(ANY, min_size=1, max_size=4),
@@ -957,6 +1172,8 @@ op_d3 = st.tuples(st.sampled_from(["filter_tags", "filter_tags_copy"]), IDX, tse
 form = st.sampled_from(FORMS)
 op_read = st.tuples(st.just("read"), read_lines, tag_filter, form)
 op_reread = st.tuples(st.just("reread"), IDX, read_lines, tag_filter, form)
+op_failread = st.tuples(st.just("failread"), st.one_of(IDX, IDX, IDX, st.none()), read_lines, tag_filter,
+                        form, st.integers(0, 7), st.sampled_from(HOWS))
 op_mquery = st.tuples(st.just("mquery"), IDX,
                       st.lists(st.one_of(ANY, ANY, st.sampled_from(HOT), st.sampled_from(TAGS + EXTRA_TAGS)),
                                min_size=1, max_size=4))
@@ -964,7 +1181,7 @@ op_qio = st.tuples(st.just("qio"), IDX, st.lists(IDX, max_size=2),
                    st.sampled_from(["fresh", "fresh", "reuse", "into"]))
 any_op = st.one_of(op_insert, op_insert, op_insert, op_insert, op_insert, op_insert, op_insert,
                    op_d0, op_d0, op_d0, op_d0, op_facet, op_d1, op_d1, op_d2, op_d3, op_d3, op_read, op_reread,
-                   op_mquery, op_mquery, op_qio)
+                   op_failread, op_failread, op_mquery, op_mquery, op_qio)
 spelt_op = st.tuples(st.sampled_from(["", "", OLD]), any_op)    # a third of the steps: deprecated aliases
 
 
@@ -1014,13 +1231,13 @@ def resolve_case(mode, names, init, flt, ops, form="iter", final_newline=True):
                 seen.update(pk)
                 rl.append([pk, sorted(tags), style])
             op = ["read", rl, None if op[2] is None else sorted(op[2]), op[3]]
-        elif op[0] == "reread":
+        elif op[0] in ("reread", "failread"):
             seen, rl = set(), []
             for pk, tags, style in op[2]:
                 pk = [p for p in refs(pk) if p not in seen]
                 seen.update(pk)
                 rl.append([pk, sorted(tags), style])
-            op = ["reread", op[1], rl, None if op[3] is None else sorted(op[3]), op[4]]
+            op = [op[0], op[1], rl, None if op[3] is None else sorted(op[3])] + list(op[4:])
         elif op[0] == "mquery":
             names_ = []
             for x in op[2]:                  # the order of the names is part of the case
@@ -1170,6 +1387,20 @@ def machine_phase(shard, nshards, seed, deadline, rec):
         def read_new(self, lines, flt, how):
             return self.apply(lambda i: ["read", lines, flt, how], None)
 
+        @rule(target=dbs, lines=m_lines, flt=m_filter, how=form, k=st.integers(0, 7),
+              why=st.sampled_from(HOWS), old=m_old)
+        def failed_read_new(self, lines, flt, how, k, why, old):
+            return self.apply(lambda i: ["failread", None, lines, flt, how, k, why], None, old)
+
+        @rule(e=dbs, lines=m_lines, flt=m_filter, how=form, k=st.integers(0, 7),
+              why=st.sampled_from(HOWS), old=m_old)
+        def failed_read_into(self, e, lines, flt, how, k, why, old):
+            self.apply(lambda i: ["failread", i, lines, flt, how, k, why], e, old)
+
+        @rule(e=dbs, lines=m_lines, flt=m_filter, how=form, old=m_old)
+        def read_into(self, e, lines, flt, how, old):
+            self.apply(lambda i: ["reread", i, lines, flt, how], e, old)
+
         @rule(e=dbs, pkg=st.one_of(mname, mname, st.sampled_from(EXTRA_TAGS)), tags=m_tags)
         def insert(self, e, pkg, tags):
             self.apply(lambda i: ["insert", i, pkg, tags], e)
@@ -1239,9 +1470,13 @@ def sources(tier):
     if tier == "quick":
         return [Enum("op-alphabet<=3", enum_cases(3, ENUM_OPS_IO, ("", OLD)), EXHAUSTIVE["quick"]),
                 Enum("long-texts", big_cases, LONG_DESC),
+                Enum("failed-reads", fail_cases, FAIL_DESC),
+                Enum("odd-tags<=2", enum_cases(2, ODD_OPS, ("", OLD), ODD_INIT), ODD_DESC),
                 Hyp("pool-histories", gen_case(12), 400, shards=8)]
     return [Enum("op-alphabet<=3", enum_cases(3, ENUM_OPS_IO, ("", OLD)), EXHAUSTIVE["quick"]),
             Enum("long-texts", big_cases, LONG_DESC),
+            Enum("failed-reads", fail_cases, FAIL_DESC),
+            Enum("odd-tags<=2", enum_cases(2, ODD_OPS, ("", OLD), ODD_INIT), ODD_DESC),
             Enum("op-alphabet17<=4", enum_cases(4, ENUM_OPS), EXHAUSTIVE["thorough"]),
             Hyp("pool-histories", gen_case(20), 5000, shards=16),
             Custom("state-machine", machine_phase, shards=8)]
